@@ -15,7 +15,9 @@
     fileIndices (unbuffered: a rendezvous of main and worker), cancelled (closed or not),
     per-file wounds / originalWounds / woundsDone (unbuffered: rendezvous steps).
 
-    Parameters of a run: what the dir/symlink pass finds ([p_pre]), whether pools.New fails,
+    Inputs of a run: what the dir/symlink pass finds ([p_pre]), whether pools.New fails,
+    whether targetPool.Close() fails in the worker's deferred function ([p_closefail]: the
+    function then returns without sending on workerErrs - the theorems need it to be false),
     per file what doOne does ([file]: whole-file wound, or the block markers before and after
     the size check, a size wound, an I/O error), the consumer as an arbitrary automaton
     ([consumer]), whether ctx is already cancelled.  Scheduling and select choices are the
@@ -47,7 +49,8 @@ Record consumer := mkcons {
 
 Record params := mkparams {
   p_cap : nat; p_pre : list pitem; p_startfail : bool; p_files : list file;
-  p_cons : consumer; p_ctx0 : bool }.
+  p_cons : consumer; p_ctx0 : bool;
+  p_closefail : bool   (* targetPool.Close() fails in the worker's deferred function *) }.
 
 (** program counters *)
 Inductive mpc := MPre (items : list pitem) | MLoop | MRearmW | MRearmC | MCancel | MCloseFI
@@ -56,7 +59,9 @@ Inductive wpc := WNone | WStart | WSelect | WWhole
                | WCopy (ws1 : list fmsg) (mid : fmid) (ws2 : list fmsg)
                | WMid (mid : fmid) (ws2 : list fmsg)
                | WFlush (ws2 : list fmsg) (e : res)
-               | WCloseP (e : res) | WWaitDone (e : res) | WSend (r : res) | WDone.
+               | WCloseP (e : res) | WWaitDone (e : res)
+               | WDefer (r : res)     (* the deferred function of vctx.validate: targetPool.Close(), then errs <- retErr *)
+               | WSend (r : res) | WDone.
 Inductive cpc := CStart | CDo (k : nat) | CSend (r : res) | CDrain | CDone.
 Inductive rpc := RRecv | RSendW (m : msg) | RDoneSend.
 Record pipe := mkpipe { a_last : bool; a_outs : list msg; a_inclosed : bool; a_outclosed : bool; r_pc : rpc }.
@@ -93,6 +98,7 @@ Definition set_pipe v s := mkst (s_ctx s) (s_canc s) (s_wch s) (s_wclosed s) (s_
 Definition init (p : params) : state :=
   mkst (p_ctx0 p) false [] false None None false (MPre (p_pre p)) RNil (p_files p) WNone CStart None.
 
+
 (** what is scheduled next: a goroutine (with the select branch it takes) or a rendezvous *)
 Inductive action :=
 | ACancel     (* environment: ctx is cancelled *)
@@ -121,7 +127,7 @@ Definition fresh_pipe : pipe := mkpipe false [] false false RRecv.
 Definition start_wk (f : file) : wpc :=
   match f with
   | FWhole => WWhole
-  | FOpenErr => WSend RErr
+  | FOpenErr => WDefer RErr
   | FData ws1 mid ws2 => WCopy ws1 mid ws2
   end.
 Definition start_pipe (f : file) : option pipe :=
@@ -138,7 +144,7 @@ Definition agg_in (last : bool) (m : fmsg) : bool * list msg :=
       else (true, [])
   end.
 
-Definition after_done (e : res) : wpc := match e with RNil => WSelect | RErr => WSend RErr end.
+Definition after_done (e : res) : wpc := match e with RNil => WSelect | RErr => WDefer RErr end.
 
 Definition step (p : params) (a : action) (s : state) : option state :=
   match a with
@@ -180,7 +186,7 @@ Definition step (p : params) (a : action) (s : state) : option state :=
   | AWk =>
       match s_wk s with
       | WStart => Some (set_wk (if p_startfail p then WSend RErr else WSelect) s)
-      | WSelect => if s_ficlosed s then Some (set_wk (WSend RNil) s) else None
+      | WSelect => if s_ficlosed s then Some (set_wk (WDefer RNil) s) else None
       | WWhole => if room p s then Some (set_wk WSelect (push Bad s)) else None
       | WCopy [] mid ws2 => Some (set_wk (WMid mid ws2) s)
       | WMid FMNone ws2 => Some (set_wk (WFlush ws2 RNil) s)
@@ -193,13 +199,15 @@ Definition step (p : params) (a : action) (s : state) : option state :=
                                (set_pipe (Some (mkpipe (a_last pp) (a_outs pp) true (a_outclosed pp) (r_pc pp))) s))
           | None => None
           end
+      | WDefer r => Some (set_wk (if p_closefail p then WDone else WSend r) s)
+            (* `if err := targetPool.Close(); err != nil { retErr = ...; return }`: returns WITHOUT sending *)
       | WSend r => match s_werr s with None => Some (set_wk WDone (set_werr (Some r) s)) | _ => None end
       | _ => None
       end
   | AWkCanc =>
       if s_canc s then
         match s_wk s with
-        | WSelect => Some (set_wk (WSend RNil) s)
+        | WSelect => Some (set_wk (WDefer RNil) s)
         | WWhole => Some (set_wk WSelect s)
         | WMid FMShort ws2 => Some (set_wk (WFlush ws2 RNil) s)
         | _ => None
@@ -348,11 +356,11 @@ Definition clean (p : params) : bool :=
 Definition w_mid (m : fmid) : nat := match m with FMShort => 2 | _ => 0 end.
 Definition w_wk (w : wpc) : nat :=
   match w with
-  | WDone => 0 | WSend _ => 1 | WSelect => 2 | WWaitDone _ => 3 | WCloseP _ => 4
-  | WFlush ws2 _ => 5 + 5 * length ws2
-  | WMid mid ws2 => 6 + w_mid mid + 5 * length ws2
-  | WCopy ws1 mid ws2 => 7 + 5 * length ws1 + w_mid mid + 5 * length ws2
-  | WWhole => 4 | WStart => 3 | WNone => 3
+  | WDone => 0 | WSend _ => 1 | WDefer _ => 2 | WSelect => 3 | WWaitDone _ => 4 | WCloseP _ => 5
+  | WFlush ws2 _ => 6 + 5 * length ws2
+  | WMid mid ws2 => 7 + w_mid mid + 5 * length ws2
+  | WCopy ws1 mid ws2 => 8 + 5 * length ws1 + w_mid mid + 5 * length ws2
+  | WWhole => 5 | WStart => 4 | WNone => 4
   end.
 Definition w_file (f : file) : nat := S (w_wk (start_wk f)).
 Definition w_files (l : list file) : nat := fold_right (fun f n => w_file f + n) 0 l.
